@@ -340,7 +340,7 @@ pub fn build(c: &Case, root_abs: &[u8]) -> Built {
         .srcs
         .iter()
         .enumerate()
-        .map(|(i, s)| if matches!(s.spell, Spell::SlashDot | Spell::ChildDotDot) && (nsrc != 1 || !src_is_dir.get(i).copied().unwrap_or(false) || !matches!(c.glob, GlobMode::Off)) { Spell::Plain } else { s.spell })
+        .map(|(i, s)| if matches!(s.spell, Spell::SlashDot | Spell::ChildDotDot) && (!src_is_dir.get(i).copied().unwrap_or(false) || !matches!(c.glob, GlobMode::Off)) { Spell::Plain } else { s.spell })
         .collect();
     for (i, sp) in eff_spell.iter().enumerate() {
         if *sp == Spell::ChildDotDot && i < src_ents.len() {
